@@ -20,6 +20,9 @@ type RunCtx struct {
 	Out      string
 	Deadline time.Time
 	Start    time.Time
+	// stage counts the runSharded calls of this invocation: a check may have several sharded stages, and a worker
+	// process ("-worker i/n@stage") runs the body of its own stage only
+	stage int
 }
 
 // Thorough reports whether the thorough tier was requested.
